@@ -1,2 +1,110 @@
+"""Chart-level conformance: the real predict_and_complete against Earley.tla (drift level)."""
+import json
+import os
+
+from . import common as C
+from . import families as F
+from . import observe as O
+
+TRACE_CFG = 'SPECIFICATION Spec\nINVARIANT VerdictOk\nCHECK_DEADLOCK FALSE\n'
+
+
+def record_case(spec):
+    """spec = (gtext, [token-type tuples]) -> list of cases with recorded columns (basic lexer)"""
+    from lark import Lark
+    from lark.parsers import earley
+    from lark.exceptions import UnexpectedToken, UnexpectedEOF, UnexpectedInput
+    gtext, inputs = spec
+    try:
+        p = Lark(gtext, parser='earley', lexer='basic')
+    except Exception:
+        return []
+    rid = {r: i + 1 for i, r in enumerate(p.rules)}
+    rules = [{'lhs': str(r.origin.name), 'rhs': [str(s.name) for s in r.expansion]} for r in p.rules]
+    log = []
+    orig = earley.Parser.predict_and_complete
+    if not callable(orig):
+        raise C.MachineryFailure('cannot attach: earley.Parser.predict_and_complete missing')
+
+    def wrapped(self, i, to_scan, columns, transitives, node_cache):
+        r = orig(self, i, to_scan, columns, transitives, node_cache)
+        log.append([sorted([rid[it.rule], it.ptr, it.start] for it in columns[i]),
+                    sorted([rid[it.rule], it.ptr, it.start] for it in to_scan)])
+        return r
+    out = []
+    earley.Parser.predict_and_complete = wrapped
+    try:
+        for w in inputs:
+            del log[:]
+            text = F.to_text(w)
+            try:
+                p.parse(text)
+                o = 'accept'
+            except UnexpectedToken:
+                o = 'token'
+            except UnexpectedEOF:
+                o = 'eof'
+            except UnexpectedInput:
+                o = 'lexer'
+            except Exception as e:
+                o = 'exc:' + type(e).__name__
+            if o == 'lexer':
+                continue
+            out.append({'rules': rules, 'start': 'start', 'w': list(w), 'cols': json.loads(json.dumps(log)), 'out': o,
+                        'gtext': gtext})
+    finally:
+        earley.Parser.predict_and_complete = orig
+    return out
+
+
 def run(ev, rep, tier, rng, tmp):
-    pass
+    Gs = list(F.bnf_family(3))
+    pick = F.sample(Gs, 1500 if tier == 'quick' else 9000, rng)
+    specs = []
+    for G in pick:
+        # only grammars whose terminals are all used keep X/Y in the lexer; others reject in the lexer (skipped)
+        ins = F.enriched_inputs(G, 3, extra_len=1, rng=rng)
+        specs.append((F.grammar_text(G), ins))
+    res = C.pmap(record_case, specs)
+    cases = [c for r in res for c in r]
+    if len(cases) < 1000:
+        raise C.MachineryFailure('chart conformance: only %d traces recorded' % len(cases))
+    CH = 8000
+    paths = []
+    for off in range(0, len(cases), CH):
+        chunk = cases[off:off + CH]
+        paths.append(C.write_batch({'cases': [{k: c[k] for k in ('rules', 'start', 'w', 'cols', 'out')} for c in chunk]},
+                                   tmp, 'cols_%d.json' % off))
+    results = C.tlc_parallel('TraceEarleyCols', TRACE_CFG, paths, continue_=True, timeout=3000)
+    drift = []
+    for pi, r in enumerate(results):
+        C.tlc_must_run(r, 'TraceEarleyCols')
+        ev.add_tlc('TraceEarleyCols[%d]' % pi, r, 'trace')
+        for v in sorted(set(tuple(x) for x in r.verdicts)):
+            c = cases[pi * CH + int(v[0]) - 1]
+            drift.append({'grammar': c['gtext'], 'w': c['w'], 'clause': v[2], 'step': int(v[1])})
+        os.remove(paths[pi])
+    ev.cov['traces_validated_against_impl'] += len(cases)
+    ev.cov['counts']['chart_traces'] = len(cases)
+    ev.cov['drift'] = len(drift)
+    ev.cov['drift_samples'] = drift[:5]
+    if cases:
+        ev.sample({'chart_trace': {'grammar': cases[len(cases) // 2]['gtext'], 'w': cases[len(cases) // 2]['w'],
+                                   'columns': cases[len(cases) // 2]['cols'], 'out': cases[len(cases) // 2]['out']}})
+    if drift:
+        print('DRIFT property=C01 the real chart differs from Earley.tla on %d trace(s) (not a violation by itself; '
+              'first: %s)' % (len(drift), json.dumps(drift[0])[:300]))
+    # self-test of this binding: corrupt one logged item
+    import copy
+    mut = copy.deepcopy(cases[:20])
+    tgt = next(i for i, c in enumerate(mut) if c['cols'] and c['cols'][0][0])
+    mut[tgt]['cols'][0][0].pop()
+    path = C.write_batch({'cases': [{k: c[k] for k in ('rules', 'start', 'w', 'cols', 'out')} for c in mut]}, tmp, 'cols_self.json')
+    r = C.tlc('TraceEarleyCols', TRACE_CFG, env={'VERIF_BATCH': path}, continue_=True, workers=4, timeout=600)
+    C.tlc_must_run(r, 'TraceEarleyCols selftest')
+    got = {int(v[0]) for v in r.verdicts}
+    ev.cov['binding_selftest']['chart_corrupted'] = 1
+    ev.cov['binding_selftest']['chart_rejected'] = len(got)
+    if got != {tgt + 1}:
+        raise C.MachineryFailure('chart binding self-test: corrupted trace %d, TLC rejected %s' % (tgt + 1, sorted(got)))
+    return drift
